@@ -16,7 +16,7 @@ matplotlib renders is NOT decided).
 import ast
 from fractions import Fraction as Fr
 
-from verifkit.absrun import Obj, Runner, StandIn, ExtFn
+from verifkit.absrun import isinstance_names, Obj, Runner, StandIn, ExtFn
 from verifkit.core import Outcome
 from verifkit.finite import Undecided, Raised
 from rules import C08
@@ -208,8 +208,7 @@ def plot_run(ctx, shape, kind):
 
     def hook(rn, ev, call, name, recv, args, kwargs):
         if name == "isinstance":
-            c = call.args[1]
-            names = [c.id] if isinstance(c, ast.Name) else [e.id for e in c.elts]
+            names = isinstance_names(call, args)
             return any(n in ctx.model.mro(kind) for n in names) if args[0] is shape else True
         if name == "gca" and recv is P:
             return ax
